@@ -10,6 +10,8 @@
 //                  inverse-transform sampling with a scripted engine, von Mises with scripted uniforms
 //   mode factory : kernels created through create_natural_kernel / create_anthro_kernel /
 //                  create_dynamic_kernel and probed
+//   mode overpop : (C17) the SwitchDispersalKernel that Model::create_overpopulation_movement_kernel
+//                  builds (protected factory called from a derived class), every member probed
 // Doubles that are inputs are dyadic rationals printed as num/den; observed doubles are C hex floats.
 #include <pops/model.hpp>
 #include <pops/kernel.hpp>
@@ -177,6 +179,8 @@ struct RadialProbe : Radial {
     double ew() const { return east_west_resolution; }
     double ns() const { return north_south_resolution; }
     VonMisesDistribution& vm() { return von_mises; }
+    double scale_seen() { return CauchyP(cauchy_distribution).d().b(); }  // distance_scale as CauchyKernel received it
+    double shape_seen() { return WeibullP(weibull_distribution).d().a(); }  // shape as WeibullKernel received it
     // the distance and the angle operator() will draw next, from this copy's distribution members
     template <class G> void draw(G& g, double& dist, double& theta) {
         draw_distance(g, dist);
@@ -266,6 +270,8 @@ struct NeighborProbe : DeterministicNeighborDispersalKernel {
 struct DetProbe : DeterministicDispersalKernel<IntRaster> {
     DetProbe(const DeterministicDispersalKernel<IntRaster>& k) : DeterministicDispersalKernel<IntRaster>(k) {}
     std::string desc() { return std::string(type_tok(kernel_type_)) + " ew=" + hx(east_west_resolution) + " ns=" + hx(north_south_resolution); }
+    // distance_scale and shape as the member distributions received them (Cauchy s, Weibull a)
+    std::string params() { return "scale=" + hx(CauchyP(cauchy).d().b()) + " shape=" + hx(WeibullP(weibull).d().a()); }
 };
 struct NetKProbe : NetworkDispersalKernel<int> {
     NetKProbe(const NetworkDispersalKernel<int>& k) : NetworkDispersalKernel<int>(k) {}
@@ -828,6 +834,114 @@ static void factory_case(::verif::Case& c) {
     c.nontrivial = true;
 }
 
+// ---------------------------------------------------------------------------------- overpop mode (C17)
+
+using PModel = Model<IntRaster, Raster<double>, int>;
+struct ModelProbe : PModel {
+    ModelProbe(const Config& c) : PModel(c) {}
+    SwitchDispersalKernel<IntRaster, int> overpop(const IntRaster& d, const Network<int>& n) { return create_overpopulation_movement_kernel(d, n); }
+};
+struct SwitchProbe : SwitchDispersalKernel<IntRaster, int> {
+    using Base = SwitchDispersalKernel<IntRaster, int>;
+    SwitchProbe(const Base& b) : Base(b) {}
+    std::string desc() {
+        std::ostringstream o;
+        RadialProbe r(radial_kernel_);
+        o << "type=" << type_tok(dispersal_kernel_type_) << " stoch=" << dispersal_stochasticity_ << " ; radial ew=" << hx(r.ew()) << " ns=" << hx(r.ns())
+          << " type=" << type_tok(r.type()) << " scale=" << hx(r.scale_seen()) << " shape=" << hx(r.shape_seen())
+          << " vmA=" << vm_obs(r.vm(), uvals({1L << (UB - 20), 0, 3L << (UB - 2)})) << " vmB=" << vm_obs(r.vm(), uvals({1L << (UB - 1), 0, 1L << (UB - 2)}));
+        DetProbe d(deterministic_kernel_);
+        o << " ; deterministic " << d.desc() << " " << d.params();
+        o << " ; uniform " << UniformProbe(uniform_kernel_).ranges();
+        o << " ; neighbor " << dir_tok(NeighborProbe(deterministic_neighbor_kernel_).dir());
+        o << " ; network " << NetKProbe(network_kernel_).desc();
+        return o.str();
+    }
+};
+
+static void overpop_case(::verif::Case& c) {
+    Rng& rng = c.rng;
+    std::ostream& out = c.out;
+    static const std::vector<std::string> tnames = {
+        "cauchy", "Cauchy", "exponential", "weibull", "Weibull", "normal", "log-normal", "Log Normal", "power law", "Power-Law",
+        "hyperbolic secant", "Hyperbolic-Secant", "gamma", "exponential-power", "Exponential Power", "logistic", "Logistic", "uniform",
+        "Uniform", "deterministic neighbor", "Deterministic-Neighbor", "network", "none", "", "bogus"};
+    static const std::vector<std::string> dnames = {"N", "NE", "E", "SE", "S", "SW", "W", "NW", "NONE", "None", "none", "", "north"};
+    static const std::vector<Q> coefs = {{1, 2}, {1, 1}, {2, 1}, {3, 1}};
+    static const std::vector<Q> scales = {{1, 2}, {1, 1}, {3, 2}, {2, 1}, {5, 1}, {10, 1}, {7, 4}};
+    static const std::vector<Q> ress = {{5, 2}, {10, 1}, {30, 1}, {100, 1}, {133, 4}, {7, 1}};
+    Config config;
+    config.rows = rng.in(1, 9); config.cols = rng.in(1, 9);
+    if (rng.coin(85)) while (config.cols == config.rows) config.cols = rng.in(1, 9);
+    Q ew = rng.pick(ress), ns = rng.pick(ress);
+    if (rng.coin(85)) while (ew.num * ns.den == ns.num * ew.den) ew = rng.pick(ress);
+    config.ew_res = ew.v(); config.ns_res = ns.v();
+    config.natural_kernel_type = c.index % 4 == 0 ? std::string(c.index % 8 == 0 ? "uniform" : "deterministic neighbor") : rng.pick(tnames);
+    config.anthro_kernel_type = rng.coin(8) ? "bogus" : rng.pick(std::vector<std::string>{"cauchy", "network", "none", ""});
+    config.natural_direction = rng.pick(dnames);
+    config.anthro_direction = rng.coin(5) ? "up" : rng.pick(std::vector<std::string>{"N", "none", "SW"});
+    Q scale = rng.pick(scales), shape = pick_shape(rng), coef = rng.pick(coefs), kappa = pick_kappa(rng);
+    // heavy tails: keep the deterministic kernel's window (always constructed) small
+    DispersalKernelType nt = DispersalKernelType::None;
+    try { nt = kernel_type_from_string(config.natural_kernel_type); } catch (...) {}
+    if (nt == DispersalKernelType::LogNormal) scale = Q{1, 2};
+    if (nt == DispersalKernelType::PowerLaw) scale = Q{3, 2};
+    if (rng.coin(3)) scale = Q{0, 1};
+    if (rng.coin(3)) shape = Q{0, 1};
+    config.natural_scale = scale.v(); config.shape = shape.v(); config.leaving_scale_coefficient = coef.v();
+    config.natural_kappa = kappa.v();
+    config.anthro_scale = 1; config.anthro_kappa = 0;
+    config.dispersal_stochasticity = rng.coin(60);
+    Q pct = Q{rng.in(12, 15), 16};
+    config.dispersal_percentage = pct.v();
+    // general guard: a window of more than 400 cells per side is not constructed (int overflow in
+    // Raster for huge quantiles, e.g. power law alpha = 30, xmin = 3: 3.2^29 map units); fall back to Cauchy(1)
+    if (Radial::supports_kernel(nt) && scale.num > 0 && shape.num > 0) {
+        double q = 0;
+        std::string qe = ::verif::err_kind([&] {
+            Radial tmp(1, 1, nt, scale.v() * coef.v(), Direction::None, 0, shape.v());
+            std::string h = RadialProbe(tmp).icdf_of(nt, pct.v());
+            q = h.rfind("err:", 0) == 0 ? 0 : std::strtod(h.c_str(), nullptr);
+        });
+        if (!qe.empty() || !(std::fabs(q) / std::min(ew.v(), ns.v()) < 400)) {
+            config.natural_kernel_type = "cauchy"; nt = DispersalKernelType::Cauchy; scale = Q{1, 1};
+            config.natural_scale = scale.v();
+            stats.add("overpop_window_guard_fallbacks");
+        }
+    }
+    Q nmin = Q{rng.in(0, 20), 2}, nmax = Q{nmin.num + rng.in(0, 40), 2};
+    config.network_min_distance = nmin.v(); config.network_max_distance = nmax.v();
+    config.random_seed = rng.in(1, 1000);
+    IntRaster dispersers(config.rows, config.cols, 1);
+    BBox<double> bbox; bbox.north = 100; bbox.south = 0; bbox.east = 100; bbox.west = 0;
+    Network<int> net(bbox, 10, 10);
+    out << "kern.overpop " << config.rows << " " << config.cols << " " << qs(ew) << " " << qs(ns) << " " << config.dispersal_stochasticity << " " << qs(pct) << " "
+        << qs(shape) << " " << tok(config.natural_kernel_type) << " " << qs(scale) << " " << tok(config.natural_direction) << " " << qs(kappa) << " " << qs(coef) << " "
+        << tok(config.anthro_kernel_type) << " " << tok(config.anthro_direction) << " " << qs(nmin) << " " << qs(nmax) << " => ";
+    std::string desc, sample = "na";
+    std::string e = ::verif::err_kind([&] {
+        ModelProbe m(config);
+        auto k = m.overpop(dispersers, net);
+        desc = SwitchProbe(k).desc();
+        if (nt == DispersalKernelType::Uniform) {  // destinations of the move as the model would draw them
+            std::default_random_engine g((unsigned)rng.in(1, 1 << 30));
+            int n = 300 * config.rows * config.cols, rmin = 1 << 30, rmax = -1, cmin = 1 << 30, cmax = -1;
+            for (int i = 0; i < n; i++) {
+                int r, cc;
+                std::tie(r, cc) = k(g, rng.in(0, config.rows - 1), rng.in(0, config.cols - 1));
+                rmin = std::min(rmin, r); rmax = std::max(rmax, r); cmin = std::min(cmin, cc); cmax = std::max(cmax, cc);
+            }
+            sample = std::to_string(rmin) + ":" + std::to_string(rmax) + ":" + std::to_string(cmin) + ":" + std::to_string(cmax);
+            stats.add("overpop_uniform_destinations", n);
+        }
+    });
+    if (e.empty()) out << desc << " ; sample=" << sample << "\n"; else out << e << "\n";
+    stats.add(e.empty() ? "overpop_built" : "overpop_rejected");
+    if (e.empty()) stats.add(std::string("overpop_type_") + type_tok(nt));
+    stats.add(config.rows == config.cols ? "overpop_square_landscape" : "overpop_nonsquare_landscape");
+    c.nontrivial = e.empty();
+}
+
 int main(int argc, char** argv) {
     std::ios::sync_with_stdio(false);
     std::string mode = argc > 1 ? argv[1] : "radial";
@@ -852,6 +966,8 @@ int main(int argc, char** argv) {
         ::verif::run_cases("h_kern", mode, seed, first, count, [&](::verif::Case& c) { laws_case(c); });
     } else if (mode == "factory") {
         ::verif::run_cases("h_kern", mode, seed, first, count, [&](::verif::Case& c) { factory_case(c); });
+    } else if (mode == "overpop") {
+        ::verif::run_cases("h_kern", mode, seed, first, count, [&](::verif::Case& c) { overpop_case(c); });
     }
     stats.dump("h_kern");
     return ok ? 0 : 3;
